@@ -783,6 +783,28 @@ struct StaticVectorSys {
             break;
         }
         case free_erase: {
+            // the value may have another type than the elements: std::erase compares elem == value in the value's own
+            // type (added after seeded breakage c01_free_erase_converts_value: the parameter became
+            // type_identity_t<T> const&, so 300 erased every (unsigned char)44 and 2.5 every 2); probed on a copy
+            if constexpr (std::is_arithmetic_v<T> && !std::is_same_v<T, bool>) {
+                auto probe = [&](auto value, char const* what) {
+                    V copy(v);
+                    std::vector<T> mt;
+                    for (int e : m) { mt.push_back(static_cast<T>(e)); }
+                    long const re = long(etl::erase(copy, value));
+                    long const rs = long(std::erase(mt, value));
+                    bool ok = re == rs && copy.size() == mt.size();
+                    for (std::size_t i = 0; ok && i < mt.size(); ++i) { ok = copy.data()[i] == mt[i]; }
+                    if (!ok) {
+                        cx.fail("C01", "etl::erase(c, value of another type)", what,
+                            cat("erase(c, ", what, " ", static_cast<long double>(value), "): tetl removed ", re, ", std::erase removed ", rs, " (elements ", mc::show_seq(m), ")"));
+                    }
+                };
+                probe(static_cast<double>(a.a) + 0.5, "fractional_double");
+                probe(static_cast<double>(a.a), "integral_double");
+                if constexpr (sizeof(T) < 8) { probe(static_cast<long long>(a.a) + (1LL << (8 * sizeof(T))), "wider_integer_congruent_modulo_2^N"); }
+                probe(static_cast<long long>(a.a), "wider_integer_same_value");
+            }
             if constexpr (copyable<T>) {
                 T const x(a.a);
                 ri = long(etl::erase(v, x));
